@@ -1,4 +1,4 @@
-(* M4 invariants, part B: no lost wake-up, the phases of Close, late sleepers. *)
+(* M4 invariants, part B: no lost wake-up, the phases of Close, nobody sleeps after Close's broadcast. *)
 From Coq Require Import List ZArith Lia Bool String Arith ZifyBool.
 From GoHls Require Import Lib.MuxSched Model.MuxConcSeq Model.MuxConcSpec Model.MuxConcPar
   Proofs.MuxConcSeqA Proofs.MuxConcSeqB Proofs.MuxConcInvA.
@@ -10,9 +10,9 @@ Definition content_ready (m : mux) (f : frame) : bool :=
   match f with
   | FMulti => match nth_error (m_streams m) 0 with
               | Some s0 => hasContent (m_variant m) s0 | None => false end
-  | FBlocking i msnint partint _ =>
+  | FBlocking i msnint P _ =>
       match nth_error (m_streams m) i with
-      | Some s => match decide_core (m_variant m) s msnint partint with
+      | Some s => match decide_core (m_variant m) s msnint P with
                   | Ready | Respond400 => true | _ => false end
       | None => false
       end
@@ -53,6 +53,7 @@ Proof.
     inversion H; subst. auto.
   - left; congruence.
   - destruct o; simpl in H; [congruence|discriminate].
+  - destruct h; discriminate.
   - congruence.
 Qed.
 
@@ -86,7 +87,10 @@ Proof.
 Qed.
 
 Lemma content_ready_set_closed : forall m f, content_ready (set_closed m) f = content_ready m f.
-Proof. intros; apply content_ready_streams; [reflexivity|intros; reflexivity]. Qed.
+Proof.
+  intros; apply content_ready_streams; [reflexivity|]. intros i. simpl. rewrite nth_error_map.
+  destruct (nth_error (m_streams m) i); reflexivity.
+Qed.
 
 Lemma closeStream_fields : forall m k,
   m_variant (mux_closeStream m k) = m_variant m /\
@@ -129,9 +133,16 @@ Proof.
     destruct (range_reject s msn); [reflexivity|].
     change (hasContent (m_variant m) (stream_createFirstSegment s)) with (hasContent (m_variant m) s) in H.
     destruct (hasContent (m_variant m) s); [|discriminate].
-    unfold hasPart in *. simpl in H. destruct (msn =? nextSegmentID s).
-    + rewrite zlen_nil in H. simpl in Hf. replace (p <? 0) with false in H by lia. discriminate.
-    + exact H.
+    destruct p as [p|]; [|exact H].
+    destruct Hf as [_ Hp]. specialize (Hp p eq_refl).
+    unfold hasPart in *. cbn [nextSegmentID segments nextSegment stream_createFirstSegment] in H.
+    destruct (negb (msn =? nextSegmentID s)).
+    + destruct ((msn <? u64 (nextSegmentID s - u64 (zlen (segments s)))) || (nextSegmentID s <? msn)); [exact H|].
+      destruct (nth_error (segments s) _) as [[d0|id parts d0]|]; try discriminate; try reflexivity.
+      destruct (p <? zlen parts); [reflexivity|].
+      destruct (negb (u64 (msn + 1) =? nextSegmentID s)); [reflexivity|].
+      rewrite zlen_nil in H. simpl in H. discriminate.
+    + rewrite zlen_nil in H. replace (p <? 0) with false in H by lia. discriminate.
   - destruct (nth_error (m_streams m) i); simpl in H; [exact H|discriminate].
   - destruct (nth_error (m_streams m) i); simpl in H; [exact H|discriminate].
 Qed.
@@ -185,7 +196,7 @@ Qed.
 Definition closing (w : wpc) : bool :=
   match w with CSet | CUnlocked | CStreams _ | WFinished => true | _ => false end.
 
-(* which streams are marked closed, by phase *)
+(* whose files stream.close() has already removed, by phase *)
 Definition closed_upto (w : wpc) (k : nat) : bool :=
   match w with CStreams j => Nat.ltb k j | WFinished => true | _ => false end.
 
@@ -195,7 +206,7 @@ Definition is_rotate (o : wop) : bool :=
 Record phase_inv (c : cstate) : Prop := {
   ph_closed : m_closed (c_mux c) = closing (c_wpc c);
   ph_streams : forall k s, nth_error (m_streams (c_mux c)) k = Some s ->
-                           s_closed s = closed_upto (c_wpc c) k;
+                           s_closed s = closing (c_wpc c);
   ph_locked : forall o, c_wpc c = WLocked o -> is_rotate o = true;
   ph_bound : forall j, c_wpc c = CStreams j -> (j <= List.length (m_streams (c_mux c)))%nat
 }.
@@ -312,27 +323,25 @@ Proof.
     + constructor; simpl; try (intros; discriminate); auto.
   - constructor; simpl; try (intros; discriminate); auto.
   - constructor; simpl; try (intros; discriminate); auto.
-  - constructor; simpl; try (intros; discriminate); auto.
+  - (* CLocked -> CSet: every closed flag is set, under the mutex *)
+    constructor; simpl; try (intros; discriminate); auto.
+    intros k s Hk. rewrite nth_error_map in Hk.
+    destruct (nth_error (m_streams (c_mux c)) k); [|discriminate]. inversion Hk; reflexivity.
   - constructor; simpl; try (intros; discriminate); auto.
   - constructor; simpl; try (intros; discriminate); auto.
     intros j Hj. inversion Hj. lia.
-  - (* CStreams k *)
+  - (* CStreams k: stream.close() only removes files *)
     pose proof (P4 k eq_refl) as Hb.
     destruct (Nat.ltb k (List.length (m_streams (c_mux c)))) eqn:Ek.
     + apply Nat.ltb_lt in Ek. destruct (closeStream_fields (c_mux c) k) as [Hv [Hc [_ [Hl Hn]]]].
       constructor; simpl; try (intros; discriminate).
       * rewrite Hc. exact P1.
       * intros j s Hj. rewrite Hn in Hj. destruct (Nat.eqb j k) eqn:Ej.
-        -- apply Nat.eqb_eq in Ej. subst j.
-           destruct (nth_error (m_streams (c_mux c)) k); simpl in Hj; [|discriminate].
-           inversion Hj; subst. simpl. symmetry. apply Nat.ltb_lt. lia.
-        -- apply Nat.eqb_neq in Ej. rewrite (P2 j s Hj).
-           destruct (Nat.ltb j k) eqn:E1, (Nat.ltb j (S k)) eqn:E2; auto;
-             [apply Nat.ltb_lt in E1; apply Nat.ltb_ge in E2|apply Nat.ltb_ge in E1; apply Nat.ltb_lt in E2]; lia.
+        -- destruct (nth_error (m_streams (c_mux c)) j) as [s0|] eqn:E0; simpl in Hj; [|discriminate].
+           inversion Hj; subst. exact (P2 j _ E0).
+        -- exact (P2 j s Hj).
       * intros j Hj. inversion Hj; subst. rewrite Hl. lia.
-    + apply Nat.ltb_ge in Ek. constructor; simpl; try (intros; discriminate); auto.
-      intros j s Hj. rewrite (P2 j s Hj). apply Nat.ltb_lt.
-      assert (j < List.length (m_streams (c_mux c)))%nat by (apply nth_error_Some; congruence). lia.
+    + constructor; simpl; try (intros; discriminate); auto.
   - exact P0.
 Qed.
 
@@ -341,12 +350,30 @@ Proof.
   intros m prog reqs [F1 F2]. constructor; simpl; auto; intros; discriminate.
 Qed.
 
-(* ---- late sleepers: after Close has broadcast, whoever is asleep went to sleep after the
-   broadcast (nobody will ever wake it), and it is not the multivariant handler ---- *)
+(* once Close has set the flags no loop test waits any more *)
+Lemma test_closed_no_wait : forall m q f,
+  m_closed m = true -> (forall k s, nth_error (m_streams m) k = Some s -> s_closed s = true) ->
+  test m q f <> TWait.
+Proof.
+  intros m q f Hc Hs H. destruct f as [|k msn p d|k d|k id]; unfold test in H.
+  - rewrite Hc in H. discriminate.
+  - destruct (nth_error (m_streams m) k) as [s|] eqn:E; [|discriminate]. rewrite (Hs k s E) in H. discriminate.
+  - destruct (nth_error (m_streams m) k) as [s|] eqn:E; [|discriminate]. rewrite (Hs k s E) in H. discriminate.
+  - destruct (nth_error (m_streams m) k) as [s|] eqn:E; [|discriminate]. rewrite (Hs k s E) in H. discriminate.
+Qed.
+
+Lemma no_wait_when_closing : forall c, phase_inv c -> closing (c_wpc c) = true ->
+  forall q f, test (c_mux c) q f <> TWait.
+Proof.
+  intros c P Hw q f. apply test_closed_no_wait.
+  - rewrite (ph_closed _ P). exact Hw.
+  - intros k s Hk. rewrite (ph_streams _ P k s Hk). exact Hw.
+Qed.
+
+(* ---- after Close's broadcast nobody is asleep, and nobody falls asleep again ---- *)
 Definition late_inv (c : cstate) : Prop :=
   close_broadcast_done (c_wpc c) = true ->
-  forall i r f, nth_error (c_reqs c) i = Some r -> r_pc r = PWaiting f ->
-                r_slept_late r = true /\ f <> FMulti.
+  forall i r f, nth_error (c_reqs c) i = Some r -> r_pc r <> PWaiting f.
 
 Lemma late_inv_rstep : forall c i, phase_inv c -> late_inv c -> late_inv (rstep c i).
 Proof.
@@ -354,14 +381,10 @@ Proof.
   destruct (rstep_shape c i) as [[_ E]|[r [Hr E]]]; rewrite E; [exact L|].
   intros Hd j x f Hj Hp. simpl c_wpc in Hd.
   apply with_req_nth in Hj. destruct Hj as [[-> [-> _]]|[_ Hj]]; [|exact (L Hd j x f Hj Hp)].
-  pose proof Hp as Hp'. apply lstep_waiting in Hp'. destruct Hp' as [Hp'|[Hp' Ht]].
-  - (* it was already asleep: lstep leaves it alone *)
-    unfold lstep. rewrite Hp'. simpl. exact (L Hd i r f Hr Hp').
-  - unfold lstep. rewrite Hp', Ht. simpl. split.
-    + rewrite Hd. apply orb_true_r.
-    + intros ->. unfold test in Ht. rewrite (ph_closed _ P) in Ht.
-      replace (closing (c_wpc c)) with true in Ht by (destruct (c_wpc c); try discriminate; reflexivity).
-      discriminate.
+  apply lstep_waiting in Hp. destruct Hp as [Hp|[_ Ht]].
+  - exact (L Hd i r f Hr Hp).
+  - apply (no_wait_when_closing c P) in Ht; [exact Ht|].
+    destruct (c_wpc c); try discriminate; reflexivity.
 Qed.
 
 Lemma late_inv_step : forall c t, phase_inv c -> late_inv c -> late_inv (step c t).
@@ -378,7 +401,7 @@ Proof.
   - intros Hd; discriminate.
   - (* the broadcast of Close: nobody is asleep afterwards *)
     intros _ j x f Hj Hp. simpl in Hj. apply broadcast_nth in Hj. destruct Hj as [r [_ ->]].
-    exfalso. eapply wake_not_waiting; eauto.
+    eapply wake_not_waiting; eauto.
   - assert (Hd0 : close_broadcast_done (c_wpc c) = true) by (rewrite Ew; reflexivity).
     destruct (Nat.ltb k (List.length (m_streams (c_mux c)))); intros _ j x f Hj Hp; simpl in *;
       exact (L Hd0 j x f Hj Hp).
